@@ -44,7 +44,11 @@ Inductive event :=
 | Teardown (code : Z)         (* API teardown <code> *)
 | Reload (r : reload)         (* configuration reload: neighbor unchanged / changed / removed *)
 | ApiRefresh                  (* the API queues a ROUTE-REFRESH to send *)
-| ProcessBroken.              (* the API process consuming neighbor-changes died *)
+| ProcessBroken               (* the API process consuming neighbor-changes died *)
+| RecvPart                    (* the reader took the first octets of a message that is not complete yet *)
+| Handover                    (* top of a main-loop iteration: the reloaded neighbor (routes) is adopted *)
+| LoopPause                   (* the main loop enters the pause that ends an iteration while a teardown is requested *)
+| LoopExit.                   (* the main loop is left because a teardown is requested *)
 
 Inductive wmsg := WOpen | WKeepalive | WUpdate | WEor | WRefresh | WNotification (c s : Z).
 
